@@ -152,4 +152,15 @@ static void j_put_str(FILE *f, const char *s, size_t n) {
 	}
 	fputc('"', f);
 }
+/* CPU-time watchdog: a scenario that burns `sec` seconds of CPU is a genuine hang
+ * (independent of machine load); the driver exits with status 98. */
+#include <sys/time.h>
+#include <signal.h>
+#include <unistd.h>
+static void j_watchdog_fire(int s) { static const char m[] = "HANG: scenario exceeded its CPU-time budget\n"; (void)s; if (write(2, m, sizeof m - 1) < 0) {} _exit(98); }
+static void j_watchdog(int sec) {
+	struct itimerval it = {{0, 0}, {sec, 0}};
+	signal(SIGVTALRM, j_watchdog_fire);
+	setitimer(ITIMER_VIRTUAL, &it, NULL);
+}
 #endif
